@@ -614,10 +614,45 @@ type chanState struct {
 	bufVC    []VC
 	closed   bool
 	closeVC  VC
-	recvWait int // receivers parked on this channel
+	recvWait int // plain receivers parked on this channel
 	slot     []any
 	slotVC   []VC
-	sendVC   VC // receiver -> sender edge for unbuffered rendezvous
+	selRecv  []*Sel // selects waiting to receive from this channel
+	selSend  []*Sel // selects waiting to send on this channel
+}
+
+func (s *chanState) liveSelRecv(except *Sel) *Sel {
+	for _, x := range s.selRecv {
+		if x != except && x.active && !x.committed {
+			return x
+		}
+	}
+	return nil
+}
+
+func (s *chanState) liveSelSend(except *Sel) (*Sel, int) {
+	for _, x := range s.selSend {
+		if x != except && x.active && !x.committed {
+			for i, c := range x.cases {
+				if c.send && c.ch == s {
+					return x, i
+				}
+			}
+		}
+	}
+	return nil, -1
+}
+
+func (s *chanState) canSend(except *Sel) bool {
+	return s.closed || len(s.buf) < s.cap || s.recvWait > len(s.slot) || s.liveSelRecv(except) != nil
+}
+
+func (s *chanState) canRecv(except *Sel) bool {
+	if len(s.buf) > 0 || len(s.slot) > 0 || s.closed {
+		return true
+	}
+	x, _ := s.liveSelSend(except)
+	return x != nil
 }
 
 func (e *Exec) chanOf(ch any) *chanState {
@@ -631,8 +666,60 @@ func (e *Exec) chanOf(ch any) *chanState {
 	return s
 }
 
+// deposit performs the send side on channel state s (the caller has established canSend).
+func (e *Exec) deposit(s *chanState, v any, except *Sel) {
+	me := e.cur
+	if s.closed {
+		panic("send on closed channel")
+	}
+	switch {
+	case len(s.buf) < s.cap:
+		s.buf = append(s.buf, v)
+		s.bufVC = append(s.bufVC, me.vc.copy())
+	case s.recvWait > len(s.slot):
+		s.slot = append(s.slot, v)
+		s.slotVC = append(s.slotVC, me.vc.copy())
+	default:
+		x := s.liveSelRecv(except)
+		for i, c := range x.cases {
+			if !c.send && c.ch == s {
+				x.committed, x.chosen = true, i
+				break
+			}
+		}
+		s.slot = append(s.slot, v)
+		s.slotVC = append(s.slotVC, me.vc.copy())
+	}
+	me.vc[me.id]++
+}
+
+// take performs the receive side (the caller has established canRecv).
+func (e *Exec) take(s *chanState, except *Sel) (any, bool) {
+	me := e.cur
+	switch {
+	case len(s.buf) > 0:
+		v := s.buf[0]
+		me.vc = me.vc.join(s.bufVC[0])
+		s.buf, s.bufVC = s.buf[1:], s.bufVC[1:]
+		return v, true
+	case len(s.slot) > 0:
+		v := s.slot[0]
+		me.vc = me.vc.join(s.slotVC[0])
+		s.slot, s.slotVC = s.slot[1:], s.slotVC[1:]
+		return v, true
+	case s.closed:
+		me.vc = me.vc.join(s.closeVC)
+		return nil, false
+	}
+	// a select is waiting to send on this channel: pull its value and commit it to that case
+	x, i := s.liveSelSend(except)
+	x.committed, x.chosen, x.sent = true, i, true
+	me.vc = me.vc.join(x.vc)
+	return x.cases[i].val, true
+}
+
 // Send replaces `ch <- v`.
-func Send[T any](ch chan T, v T) {
+func Send[T any](ch chan<- T, v T) {
 	e := cur
 	if e.aborted.Load() {
 		return
@@ -641,25 +728,12 @@ func Send[T any](ch chan T, v T) {
 		e.point("send(nil chan)", func() bool { return false }, -1)
 	}
 	s := e.chanOf(ch)
-	e.point("chan.send", func() bool {
-		return s.closed || len(s.buf) < s.cap || s.recvWait > len(s.slot)
-	}, -1)
-	if s.closed {
-		panic("send on closed channel")
-	}
-	me := e.cur
-	if len(s.buf) < s.cap {
-		s.buf = append(s.buf, v)
-		s.bufVC = append(s.bufVC, me.vc.copy())
-	} else {
-		s.slot = append(s.slot, v)
-		s.slotVC = append(s.slotVC, me.vc.copy())
-	}
-	me.vc[me.id]++
-	e.note(me, "send")
+	e.point("chan.send", func() bool { return s.canSend(nil) }, -1)
+	e.deposit(s, v, nil)
+	e.note(e.cur, "send")
 }
 
-func recv[T any](ch chan T) (T, bool) {
+func recv[T any](ch <-chan T) (T, bool) {
 	e := cur
 	var zero T
 	if e.aborted.Load() {
@@ -670,43 +744,31 @@ func recv[T any](ch chan T) (T, bool) {
 	}
 	s := e.chanOf(ch)
 	s.recvWait++
-	e.point("chan.recv", func() bool { return len(s.buf) > 0 || len(s.slot) > 0 || s.closed }, -1)
+	e.point("chan.recv", func() bool { return s.canRecv(nil) }, -1)
 	s.recvWait--
-	me := e.cur
-	switch {
-	case len(s.buf) > 0:
-		v := s.buf[0]
-		me.vc = me.vc.join(s.bufVC[0])
-		s.buf, s.bufVC = s.buf[1:], s.bufVC[1:]
-		e.note(me, "recv")
-		return v.(T), true
-	case len(s.slot) > 0:
-		v := s.slot[0]
-		me.vc = me.vc.join(s.slotVC[0])
-		s.slot, s.slotVC = s.slot[1:], s.slotVC[1:]
-		e.note(me, "recv")
-		if v == nil {
-			return zero, true
-		}
-		return v.(T), true
-	default:
-		me.vc = me.vc.join(s.closeVC)
-		e.note(me, "recv-closed")
+	v, ok := e.take(s, nil)
+	if !ok {
+		e.note(e.cur, "recv-closed")
 		return zero, false
 	}
+	e.note(e.cur, "recv")
+	if v == nil {
+		return zero, true
+	}
+	return v.(T), true
 }
 
 // Recv replaces `<-ch`.
-func Recv[T any](ch chan T) T {
+func Recv[T any](ch <-chan T) T {
 	v, _ := recv(ch)
 	return v
 }
 
 // Recv2 replaces `v, ok := <-ch`.
-func Recv2[T any](ch chan T) (T, bool) { return recv(ch) }
+func Recv2[T any](ch <-chan T) (T, bool) { return recv(ch) }
 
 // Close replaces `close(ch)`.
-func Close[T any](ch chan T) {
+func Close[T any](ch chan<- T) {
 	e := cur
 	if e.aborted.Load() {
 		return
@@ -720,6 +782,151 @@ func Close[T any](ch chan T) {
 	s.closeVC = e.cur.vc.copy()
 	e.cur.vc[e.cur.id]++
 	e.note(e.cur, "close")
+}
+
+// ---- select ------------------------------------------------------------------------------------
+
+type selCase struct {
+	ch   *chanState
+	send bool
+	val  any
+}
+
+// Sel replaces a select statement: cases are registered in source order, Wait blocks until one
+// can proceed and returns its index (-1 = default). Which of several ready cases is taken is a
+// scheduling choice (Go picks pseudo-randomly).
+type Sel struct {
+	e          *Exec
+	cases      []selCase
+	hasDefault bool
+	active     bool
+	committed  bool
+	chosen     int
+	sent       bool // a receiver pulled the value of the chosen send case
+	vc         VC
+	got        any
+	gotOK      bool
+}
+
+func NewSelect(hasDefault bool) *Sel { return &Sel{e: cur, hasDefault: hasDefault, chosen: -1} }
+
+func SelRecv[T any](x *Sel, ch <-chan T) {
+	if x.e.aborted.Load() {
+		return
+	}
+	if ch == nil {
+		x.cases = append(x.cases, selCase{ch: &chanState{}})
+		return
+	}
+	x.cases = append(x.cases, selCase{ch: x.e.chanOf(ch)})
+}
+
+func SelSend[T any](x *Sel, ch chan<- T, v T) {
+	if x.e.aborted.Load() {
+		return
+	}
+	if ch == nil {
+		x.cases = append(x.cases, selCase{ch: &chanState{}, send: true})
+		return
+	}
+	x.cases = append(x.cases, selCase{ch: x.e.chanOf(ch), send: true, val: v})
+}
+
+func (x *Sel) ready() []int {
+	var r []int
+	for i, c := range x.cases {
+		if (c.send && c.ch.canSend(x)) || (!c.send && c.ch.canRecv(x)) {
+			r = append(r, i)
+		}
+	}
+	return r
+}
+
+// Wait blocks until a case can proceed and performs its channel operation.
+func (x *Sel) Wait() int {
+	e := x.e
+	if e.aborted.Load() {
+		panic(abortSentinel{})
+	}
+	x.active = true
+	x.vc = e.cur.vc.copy()
+	for _, c := range x.cases {
+		if c.send {
+			c.ch.selSend = append(c.ch.selSend, x)
+		} else {
+			c.ch.selRecv = append(c.ch.selRecv, x)
+		}
+	}
+	e.point("select", func() bool { return x.committed || x.hasDefault || len(x.ready()) > 0 }, -1)
+	defer func() {
+		x.active = false
+		for _, c := range x.cases {
+			c.ch.selSend = dropSel(c.ch.selSend, x)
+			c.ch.selRecv = dropSel(c.ch.selRecv, x)
+		}
+	}()
+	if !x.committed {
+		r := x.ready()
+		if len(r) == 0 {
+			e.note(e.cur, "select-default")
+			return -1
+		}
+		x.chosen = r[0]
+		if len(r) > 1 {
+			x.chosen = r[Choose(len(r), "select-case")]
+		}
+		x.committed = true
+		c := x.cases[x.chosen]
+		if c.send {
+			e.deposit(c.ch, c.val, x)
+		}
+	}
+	c := x.cases[x.chosen]
+	if !c.send {
+		x.got, x.gotOK = e.take(c.ch, x)
+	}
+	e.note(e.cur, fmt.Sprintf("select-%d", x.chosen))
+	return x.chosen
+}
+
+func dropSel(l []*Sel, x *Sel) []*Sel {
+	out := l[:0]
+	for _, y := range l {
+		if y != x {
+			out = append(out, y)
+		}
+	}
+	return out
+}
+
+// Take returns the value received by the chosen receive case.
+func Take[T any](x *Sel, ch <-chan T) T {
+	v, _ := Take2(x, ch)
+	return v
+}
+
+func Take2[T any](x *Sel, ch <-chan T) (T, bool) {
+	var zero T
+	if x.e.aborted.Load() || x.got == nil {
+		return zero, x.gotOK
+	}
+	return x.got.(T), x.gotOK
+}
+
+// TimeAfter replaces time.After: a channel that receives the (virtual) time after d.
+func TimeAfter(d time.Duration) chan time.Time {
+	e := cur
+	ch := make(chan time.Time, 1)
+	if e.aborted.Load() {
+		return ch
+	}
+	s := e.chanOf(ch)
+	e.timerSeq++
+	e.timers = append(e.timers, timerEv{at: e.clock + int64(d), seq: e.timerSeq, fn: func() {
+		s.buf = append(s.buf, Now())
+		s.bufVC = append(s.bufVC, VC{})
+	}})
+	return ch
 }
 
 // ---- race detection ----------------------------------------------------------------------------
@@ -808,6 +1015,7 @@ func Run(prefix []int, sigs []uint32, opt Options, body func()) *Exec {
 		e.horizon = 2000
 	}
 	wgs = map[uintptr]*wgState{}
+	resetSyncx()
 	e.Net = newNetwork(e)
 	cur = e
 	e.lastProg.Store(time.Now().UnixNano())
